@@ -477,6 +477,22 @@ def drive_lerp(rec):
     return t
 
 
+def table_trace():
+    """Per-element summary of the tabulated densities of the current tree (judged by Trace_Lerp!TableVerdict)."""
+    dom, rho = table()
+    r = np.sqrt(dom)
+    t = {"count1000": [], "mono": [], "pos": [],
+         "meta": {"recipe": {}, "source": "thakkar_interp.npz", "impl_call": "np.load(thakkar_interp.npz)", "nontrivial": True}}
+    for z in range(1, min(104, rho.shape[0] + 1)):
+        y = rho[z - 1]
+        f = 4.0 * math.pi * y * r * r
+        n = float(np.sum((f[1:] + f[:-1]) / 2.0 * np.diff(r))) + 4.0 * math.pi * float(y[0]) * float(r[0]) ** 3 / 3.0
+        t["count1000"].append(int(round(n * 1000)) if math.isfinite(n) and abs(n) < 1e6 else -1)
+        t["mono"].append(bool(np.all(np.diff(y) <= 1e-12 * np.abs(y[:-1]))))
+        t["pos"].append(bool(np.all(y > 0)))
+    return t
+
+
 def lerp_recipes(ctx):
     rng = random.Random(ctx.seed * 331 + 9)
     out = []
@@ -500,7 +516,7 @@ def run(ctx, explain=False):
     traces = pool_map(drive, recipes, chunksize=1)
     ctx.validate("trace/Trace_Promolecule.tla", traces, consts="  TDen = %d\n" % TDEN,
                  batch=ctx.pick(None, 500), timeout=1500)
-    ctx.validate("trace/Trace_Lerp.tla", pool_map(drive_lerp, lerp_recipes(ctx)), timeout=600)
+    ctx.validate("trace/Trace_Lerp.tla", pool_map(drive_lerp, lerp_recipes(ctx)) + [table_trace()], timeout=600)
     if ctx.ood:
         raise tlc.TLCFailure("constructed inputs were judged out of domain by TLC (%d): harness bug" % ctx.ood)
     ctx.exhaustive = False
